@@ -178,3 +178,9 @@ Check (C18_json_diagnostics_name_store_files :
                            /\ In (k, e) (st_check (snd (fst (run_cli_impl p)))) /\ d_kind d = Some k
                            /\ e_pos e = Some pos /\ d_line d = u32 (p_line pos) /\ d_col d = u32 (p_col pos)).
 Print Assumptions C18_json_diagnostics_name_store_files.
+
+Check (C18_diagnostic_file_is_position_file :
+  forall files e f pos,
+  located_file files e = Some (f, pos) ->
+  e_pos e = Some pos /\ p_builtin pos = false /\ get_file files (p_file pos) = Some f).
+Print Assumptions C18_diagnostic_file_is_position_file.
